@@ -200,6 +200,8 @@ type Cfg struct {
 	PartSize int
 	// ValChange: height -> new powers (0 removes), applied by every node's app when it commits that height
 	ValChange map[uint64][]int64
+	// Trace: record every step of every correct node (trace.go; C01 node-model tie)
+	Trace bool
 }
 
 // Msg is one consensus message in flight.
@@ -227,6 +229,9 @@ type Node struct {
 	Outbox   map[uint64][]*Msg // own messages by height (what the reactor would keep gossiping)
 	Seen     map[string]bool   // ids of messages already handed to this node's state machine
 	Killed   bool              // ApplyBlock failed after commit (cmn.Kill path)
+	// what the last handled input produced (filled by collect; read by the trace)
+	lastMsgs []cs.ConsensusMessage
+	lastTos  []Timeout
 }
 
 // Event of the L-A history.
@@ -249,6 +254,11 @@ type Net struct {
 	BadVotes []string
 	idList   []types.BlockID
 	Genesis  *types.GenesisDoc
+	// step-level trace (Cfg.Trace): per correct node the handled inputs and resulting state lines; registry of the
+	// part-set headers of the blocks proposed so far
+	Trace   map[int][]TraceEntry
+	hdrs    map[string]*hdrReg
+	hdrList []*hdrReg
 }
 
 func (n *Net) ValueOf(id types.BlockID) int {
@@ -350,6 +360,9 @@ func (n *Net) startNode(node *Node) {
 	node.CS, node.Ticker, node.App, node.DB, node.Bus = state, ticker, app, db, bus
 	// what OnStart does after starting the routines: schedule round 0
 	node.Timeouts = append(node.Timeouts, Timeout{Height: state.VerifRoundState().Height, Round: 0, Step: cstypes.RoundStepNewHeight})
+	if c.Trace {
+		n.traceInit(node)
+	}
 }
 
 // Close stops the event buses.
@@ -402,7 +415,9 @@ func (n *Net) collect(node *Node, pv interface{}, stack string) string {
 		return "panic " + node.Dead
 	}
 	var outs []string
+	node.lastMsgs, node.lastTos = nil, nil
 	for _, m := range node.CS.VerifTakeInternal() {
+		node.lastMsgs = append(node.lastMsgs, m)
 		node.seq++
 		msg := &Msg{ID: fmt.Sprintf("%d.%d", node.Idx, node.seq), From: node.Idx, Payload: m}
 		outs = append(outs, n.Describe(msg))
@@ -439,6 +454,7 @@ func (n *Net) collect(node *Node, pv interface{}, stack string) string {
 		}
 	}
 	for _, t := range node.Ticker.Take() {
+		node.lastTos = append(node.lastTos, t)
 		node.Timeouts = append(node.Timeouts, t)
 		outs = append(outs, fmt.Sprintf("to(%d,%d,%d)", t.Height, t.Round, t.Step))
 	}
@@ -469,10 +485,33 @@ func (n *Net) Deliver(to int, m *Msg) string {
 		peer = ""
 	}
 	hBefore := node.CS.VerifRoundState().Height
+	ev := ""
+	if n.Cfg.Trace {
+		ev = n.describeIn(node, m)
+	}
 	pv, st := node.CS.VerifHandleMsg(m.Payload, peer)
 	n.noteCommits(node, before)
 	n.checkKilled(node, before, hBefore)
-	return n.collect(node, pv, st)
+	out := n.collect(node, pv, st)
+	if n.Cfg.Trace {
+		n.traceStep(node, ev, before, out)
+	}
+	return out
+}
+
+// traceStep records one handled input of a node.
+func (n *Net) traceStep(node *Node, ev string, before int, out string) {
+	if node.Dead != "" {
+		n.traceAdd(node, ev+" nv=0 nvt=0", out)
+		return
+	}
+	var commits []string
+	for h := before; h < len(node.App.Blocks); h++ {
+		b, ps, sc := node.App.Blocks[h], node.App.Parts[h], node.App.SeenCommits[h]
+		commits = append(commits, fmt.Sprintf("commit(%d,%d,%d)", b.Height, sc.Round(), n.ValueOf(types.BlockID{Hash: b.Hash(), PartsHeader: ps.Header()})))
+	}
+	outs, nv, nvt := n.traceOuts(node.lastMsgs, node.lastTos, commits)
+	n.traceAdd(node, fmt.Sprintf("%s nv=%d nvt=%d", ev, nv, nvt), n.NodeLine(node)+" "+outs)
 }
 
 // FireTimeout delivers a timeout to a node.
@@ -486,7 +525,11 @@ func (n *Net) FireTimeout(to int, t Timeout) string {
 	pv, st := node.CS.VerifHandleTimeout(t)
 	n.noteCommits(node, before)
 	n.checkKilled(node, before, hBefore)
-	return n.collect(node, pv, st)
+	out := n.collect(node, pv, st)
+	if n.Cfg.Trace {
+		n.traceStep(node, fmt.Sprintf("timeout h=%d r=%d st=%d", t.Height, t.Round, t.Step), before, out)
+	}
+	return out
 }
 
 // checkKilled: the application committed a block but the consensus height did not advance: ApplyBlock failed and
@@ -554,6 +597,11 @@ func (n *Net) Gossip(to int) int {
 		if !claimed[key] {
 			claimed[key] = true
 			rs.Votes.SetPeerMaj23(round, typ, fmt.Sprintf("peer%d", from), id)
+			if n.Cfg.Trace {
+				// the claim changes the node's vote sets outside a handled message: it is a step of the trace
+				node.lastMsgs, node.lastTos = nil, nil
+				n.traceStep(node, fmt.Sprintf("maj23 r=%d t=%d src=%d v=%d tot=%d", round, typ, from, n.ValueOf(id), id.PartsHeader.Total), len(node.App.Blocks), "")
+			}
 		}
 	}
 	sendParts := func(from int, ps *types.PartSet) {
@@ -670,6 +718,13 @@ func (n *Net) ByzVote(idx int, typ byte, h uint64, round int, id types.BlockID, 
 func (n *Net) ByzProposal(idx int, h uint64, round int, block *types.Block, polRound int, polID types.BlockID) []*Msg {
 	node := n.Nodes[idx]
 	parts := block.MakePartSet(n.Cfg.PartSize)
+	if n.Cfg.Trace {
+		var pl []*types.Part
+		for i := 0; i < parts.Total(); i++ {
+			pl = append(pl, parts.GetPart(i))
+		}
+		n.registerParts(parts.Header(), pl)
+	}
 	p := types.NewProposal(h, round, parts.Header(), polRound, polID)
 	p.Timestamp = time.Unix(1600000000, 0).UTC()
 	node.PV.SignProposal(n.Cfg.ChainID, p)
